@@ -392,7 +392,7 @@ namespace adept {
 	  Vector max_frac = (max_x(ifree(new_max_bounds)) - x(ifree(new_max_bounds)))
 	    / sub_dx(new_max_bounds);
 	  mmax_frac = minval(max_frac);
-	  imax = new_max_bounds(maxloc(max_frac));
+	  imax = new_max_bounds(minloc(max_frac));
 	}
 
 	Real frac = 1.0;
